@@ -8,7 +8,7 @@ import json
 from mc.explore import HarnessError, explore, run_once
 
 COMBINATOR_CASES = [
-    "gather2", "gather3-mixed-fail", "gather2-bothfail", "gather3", "chain-race", "chain-else", "unwrap-nested", "unwrap-race", "unwrap-double",
+    "gather2", "gather3-mixed-fail", "gather2-bothfail", "gather3", "chain-race", "chain-else", "unwrap-nested", "unwrap-race", "unwrap-double", "gather-done-failed", "gather-done-ok",
 ]
 EXEC_CASES = [
     ("exec-siblings", "{ a b }", {"Query.a": "sync", "Query.b": "sync"}, {}),
@@ -92,6 +92,23 @@ def _combinator(name, ch, traced):
         b.spawn("T1", lambda: f1.set_result(1))
         b.spawn("T2", lambda: f2.set_exception(E1("x")))
         expected = [["exc", "E1"]]
+        get = lambda: outer  # noqa
+    elif name == "gather-done-failed":
+        # one member is already done (failed) when the aggregate is built; the other completes later
+        f1, f2, f3 = Future(), Future(), Future()
+        f1.set_exception(E1("x"))
+        outer = TP.gather_futures([f1, f2, f3])
+        b.spawn("T2", lambda: f2.set_result(2))
+        b.spawn("T3", lambda: f3.set_result(3))
+        expected = [["exc", "E1"]]
+        get = lambda: outer  # noqa
+    elif name == "gather-done-ok":
+        f1, f2 = Future(), Future()
+        f1.set_result(1)
+        outer = TP.gather_futures([f1, f2])
+        b.spawn("T2", lambda: f2.set_result(2))
+        b.spawn("T0", lambda: None)
+        expected = [["result", "[1, 2]"]]
         get = lambda: outer  # noqa
     elif name == "gather2-bothfail":
         f1, f2 = Future(), Future()
